@@ -650,6 +650,22 @@ func runCase(line, origin string) {
 		if op == "setxyz" {
 			res := xyOf(&outA)
 			impl = res.String()
+			// the result is a function of the operand alone: a receiver that held something else before (the OTHER value of
+			// the Infinity flag, arbitrary coordinates) must end up with the operand's flag and the same coordinates
+			// (a reused XY variable: P + (−P) = ∞ first, a finite point afterwards)
+			if a.inContract() {
+				g2 := a.goXYZ()
+				dirty := secp.XY{Infinity: !a.inf}
+				dirty.X.SetInt(7)
+				dirty.Y.SetInt(11)
+				if p2 := guard(func() { dirty.SetXYZ(&g2) }); p2 != "" {
+					propFail("group-setxyz-receiver", fmt.Sprintf("%s: SetXYZ into a used receiver panics: %s", line, p2), c)
+				} else if d := xyOf(&dirty); d.inf != a.inf || (!a.inf && d != res) {
+					propFail("group-setxyz-receiver", fmt.Sprintf("%s: SetXYZ into a receiver that held Infinity=%v before gives %s (Infinity must be %v), into a fresh receiver %s: the result depends on what the receiver held", line, !a.inf, d, a.inf, res), c)
+				} else {
+					r.Hit("setxyz/used-receiver-agrees")
+				}
+			}
 			if ap, on := a.ref(); on && a.inContract() && !a.inf {
 				prop = func() bool {
 					return checkFeValue("setxyz.x", res.x, ap.x, 1, c) && checkFeValue("setxyz.y", res.y, ap.y, 1, c)
